@@ -30,6 +30,8 @@ struct Cfg {
   string ip;         // initial priority per slot: '0' defined without priority, '1'..'9', '-' not defined
   int dt = 1;        // seconds the clock advances before each getNextPoll
   int warm = 0;      // unperturbed selections before the explored history (drift of g_lastPollOrder)
+  bool cond = false; // operation R<k> enabled: a condition referring to message k is defined and resolved (as after a later
+                     // loaded definition file): the message gets the poll priority of condition messages and goes to the front
   int silent = -1;   // >= 0: every selected message gets an answer stored except the one in this slot (9 = all answer)
   int chain = -1;    // slot whose initial definition is a CHAINED message (two part IDs): one poll entry like any other
   string str() const {
@@ -38,6 +40,7 @@ struct Cfg {
     string r = b;
     if (chain >= 0) r += ";chain=" + std::to_string(chain);
     if (silent >= 0) r += ";silent=" + std::to_string(silent);
+    if (cond) r += ";cond=1";
     return r;
   }
 };
@@ -59,7 +62,7 @@ struct Op {
   string str() const {
     char b[16];
     if (k == 'G' || k == 'L' || k == 'C' || k == 'Z') snprintf(b, sizeof(b), "%c", k);
-    else if (k == 'F' || k == 'X') snprintf(b, sizeof(b), "%c%d", k, slot);
+    else if (k == 'F' || k == 'X' || k == 'R') snprintf(b, sizeof(b), "%c%d", k, slot);
     else snprintf(b, sizeof(b), "%c%d:%d", k, slot, prio);
     return b;
   }
@@ -86,7 +89,7 @@ inline bool parseOps(const string& s, vector<Op>* out) {
     Op o{t[0], 0, 0};
     if (o.k == 'G' || o.k == 'L' || o.k == 'C' || o.k == 'Z') {
       if (t.size() != 1) return false;
-    } else if (o.k == 'F' || o.k == 'X') {
+    } else if (o.k == 'F' || o.k == 'X' || o.k == 'R') {
       if (t.size() != 2) return false;
       o.slot = t[1] - '0';
     } else if (o.k == 'P' || o.k == 'A') {
@@ -113,6 +116,7 @@ class NullResolver : public ebusd::Resolver {
 
 // what the harness knows about a slot without looking into the implementation
 struct SlotView {
+  bool cond = false;  // a condition referring to the message was resolved
   bool present = false;
   int prio = 0;  // the REQUESTED priority: digit of the "r<p>" type the message was defined with, or the argument of
                  // the last setPollPriority call (no message of this world is used by a condition, so no cap applies)
@@ -171,16 +175,17 @@ class World {
     Message* m = m_map->getNextPoll();
     // the polled device answers (the bus handler stores the answer in the message) - except the device of slot
     // `silent`, which never does: whether a message has a value must not influence how often it is selected
-    if (m != nullptr && m_cfg.silent >= 0 && slotOf(m) != m_cfg.silent) {
-      ebusd::MasterSymbolString ms;
-      std::istringstream in("");
-      if (m->prepareMaster(0, 0x31, ebusd::SYN, ';', &in, &ms) == ebusd::RESULT_OK) {
-        ebusd::SlaveSymbolString ss;
-        ss.push_back(1); ss.push_back(static_cast<ebusd::symbol_t>(g_now & 0x7f));
-        m->storeLastData(ms, ss);
-      }
-    }
+    if (m != nullptr && m_cfg.silent >= 0 && slotOf(m) != m_cfg.silent) storeValue(m);
     return m;
+  }
+  void storeValue(Message* m) {
+    ebusd::MasterSymbolString ms;
+    std::istringstream in("");
+    if (m->prepareMaster(0, 0x31, ebusd::SYN, ';', &in, &ms) == ebusd::RESULT_OK) {
+      ebusd::SlaveSymbolString ss;
+      ss.push_back(1); ss.push_back(static_cast<ebusd::symbol_t>(g_now & 0x7f));
+      m->storeLastData(ms, ss);
+    }
   }
   int slotOf(const Message* m) const {
     for (int k = 0; k < m_cfg.n; k++) if (m_slot[k] == m && m != nullptr) return k;
@@ -190,6 +195,7 @@ class World {
     SlotView v;
     v.present = m_slot[k] != nullptr;
     v.prio = v.present && m_req[k] > 0 ? m_req[k] : 0;
+    v.cond = v.present && m_cond[k];
     return v;
   }
   int implPrio(int k) const { return m_slot[k] ? static_cast<int>(m_slot[k]->getPollPriority()) : 0; }
@@ -219,6 +225,7 @@ class World {
     if (!v.present) return false;
     if (o.k == 'P') return o.prio > 0 && o.prio != v.prio;
     if (o.k == 'F') return v.prio > 0;
+    if (o.k == 'R') return m_cfg.cond && !v.cond;
     return o.k == 'X';
   }
   // returns false if the op is not enabled (hard harness error while replaying)
@@ -235,7 +242,22 @@ class World {
       bool ret = m_slot[o.slot]->setPollPriority(static_cast<size_t>(o.prio));
       if (ret) m_map->addPollMessage(false, m_slot[o.slot]);
       m_req[o.slot] = o.prio;
+      if (m_cond[o.slot]) m_req[o.slot] = implPrio(o.slot);  // the priority of a condition message is capped; by how much is not the statement's subject
       if (log) { snprintf(b, sizeof(b), "%s  m%d->setPollPriority(%d) -> %d%s\n", o.str().c_str(), o.slot, o.prio, ret, ret ? " ; addPollMessage(false)" : ""); *log += b; }
+      break;
+    }
+    case 'R': {
+      // "the message already has a value" (a client read it) when the devices of this world answer
+      if (m_cfg.silent >= 0 && m_cfg.silent != o.slot) storeValue(m_slot[o.slot]);
+      char line[96];
+      snprintf(line, sizeof(line), "*[k%d_%d],c,m%d,,,,1\n", o.slot, ++m_condSerial, o.slot);
+      bool ok = readCsv(line);
+      string err;
+      ebusd::result_t rr = m_map->resolveConditions(false, &err);
+      m_cond[o.slot] = true;
+      m_req[o.slot] = implPrio(o.slot);  // whatever priority the implementation gives a condition message: it has to be polled accordingly
+      if (log) { snprintf(b, sizeof(b), "%s  condition on m%d defined and resolved -> %s %s, poll priority now %d\n", o.str().c_str(), o.slot, ok ? "ok" : "error", ebusd::getResultCode(rr), m_req[o.slot]); *log += b; }
+      if (!ok || rr != ebusd::RESULT_OK) return false;
       break;
     }
     case 'F':
@@ -246,6 +268,7 @@ class World {
       bool ok = readCsv(defLine(o.slot, o.prio));
       rebind();
       m_req[o.slot] = o.prio;
+      m_cond[o.slot] = false;
       if (log) { snprintf(b, sizeof(b), "%s  define m%d with poll priority %d -> %s\n", o.str().c_str(), o.slot, o.prio, ok ? "ok" : "error"); *log += b; }
       if (!ok || m_slot[o.slot] == nullptr) return false;
       break;
@@ -254,6 +277,7 @@ class World {
       m_map->remove(m_slot[o.slot]);
       m_slot[o.slot] = nullptr;
       m_req[o.slot] = -1;
+      m_cond[o.slot] = false;
       if (log) { snprintf(b, sizeof(b), "%s  MessageMap::remove(m%d)\n", o.str().c_str(), o.slot); *log += b; }
       break;
     case 'C': {
@@ -273,6 +297,7 @@ class World {
       break;
     case 'L': {
       m_map->clear();
+      for (int k = 0; k < MAXSLOT; k++) m_cond[k] = false;
       bool ok = loadInitial();
       if (log) { snprintf(b, sizeof(b), "L  clear() + load initial definitions -> %s\n", ok ? "ok" : "error"); *log += b; }
       if (!ok) return false;
@@ -290,6 +315,7 @@ class World {
     bool ret = m_slot[slot]->setPollPriority(static_cast<size_t>(prio));
     if (ret) m_map->addPollMessage(false, m_slot[slot]);
     m_req[slot] = prio;
+    if (m_cond[slot]) m_req[slot] = implPrio(slot);
     return true;
   }
   // (remove and) define message `slot` anew with the given priority
@@ -307,6 +333,7 @@ class World {
     bool ok = readCsv(defLine(slot, prio));
     rebind();
     m_req[slot] = prio;
+    m_cond[slot] = false;
     return ok && m_slot[slot] != nullptr;
   }
   bool toFront(int slot) {
@@ -379,6 +406,7 @@ class World {
                isNow ? "n" : "");
       s += b;
     }
+    for (int k = 0; k < m_cfg.n; k++) if (m_cond[k]) { s += 'c'; s += static_cast<char>('0' + k); }
     snprintf(b, sizeof(b), "g%lld|q", g - base);
     s += b;
     for (Message* m : vp::pollQueueItems(m_map->m_pollMessages)) {
@@ -393,6 +421,8 @@ class World {
   MessageMap* m_map;
   Message* m_slot[MAXSLOT];
   int m_req[MAXSLOT];
+  bool m_cond[MAXSLOT] = {false, false, false, false};
+  int m_condSerial = 0;
   NullResolver m_resolver;
   MessageMap* m_probeMap = nullptr;
   MessageMap* m_otherMap = nullptr;
